@@ -68,6 +68,7 @@ def r_typed_extract(cx):
             cx.ob("R-TYPED-EXTRACT", "variant/%s" % v, False, "no arm for OpParameter::%s in ParsedParameters::new" % v)
             continue
         used = set()
+        helpers = set()
         where = None
         for bb, t in f.calls():
             if not f.dominates(a, bb):
@@ -77,6 +78,17 @@ def r_typed_extract(cx):
                 used.add(p)
                 if p not in EXPECT[v]:
                     where = cx.where(t["span"])
+            # a private helper of the module that does the parsing for this arm
+            h = f.callee(t) or ""
+            if h.startswith("op::parsed_parameters::") and not h.startswith(K.PP + "::") and cx.f.has_fn(h):
+                helpers.add(h)
+                g = cx.f.fn(h)
+                for b2, t2 in g.calls():
+                    p = _parser(g, t2)
+                    if p:
+                        used.add(p)
+                        if p not in EXPECT[v]:
+                            where = cx.where(t2["span"])
         n += 1
         ok = used == EXPECT[v]
         cx.ob("R-TYPED-EXTRACT", "variant/%s" % v, ok,
@@ -89,6 +101,10 @@ def r_typed_extract(cx):
         if EXPECT[v]:
             bads = [bb for bb, i, st in f.all_stmts() if st["k"] == "assign" and st["rv"]["k"] == "agg" and
                     st["rv"].get("adt") == "Error" and st["rv"].get("vname") == "BadParam" and f.dominates(a, bb)]
+            for h in sorted(helpers):
+                g = cx.f.fn(h)
+                bads += [bb for bb, i, st in g.all_stmts() if st["k"] == "assign" and st["rv"]["k"] == "agg" and
+                         st["rv"].get("adt") == "Error" and st["rv"].get("vname") == "BadParam"]
             cx.ob("R-TYPED-EXTRACT", "rejects/%s" % v, bool(bads),
                   "a malformed %s value is rejected with BadParam" % v.lower() if bads else
                   "the %s arm of ParsedParameters::new has no BadParam error return any more: a malformed value is "
